@@ -253,7 +253,7 @@ const c16MaxStalls = 12
 
 func c16Name(slot int) string { return fmt.Sprintf("verif%02d", slot) }
 
-func harnessDir() (string, error) {
+func pluginHarnessDir() (string, error) {
 	var cands []string
 	if wd, err := os.Getwd(); err == nil {
 		cands = append(cands, wd, filepath.Dir(wd), filepath.Join(wd, "harness"))
@@ -270,7 +270,7 @@ func harnessDir() (string, error) {
 }
 
 func c16Setup() (*c16Env, error) {
-	hd, err := harnessDir()
+	hd, err := pluginHarnessDir()
 	if err != nil {
 		return nil, err
 	}
